@@ -36,6 +36,9 @@ def rdSeqOp : Rd (Option (SeqOp Element)) := do
   let R : Rd Nat := do let n ← Rd.num; return n % 4
   match w with
   | "cz" => do let r ← R; let h ← Rd.word; return some (.set r (TString.ofCStr (unhex h ++ [0])))
+  -- `cb` / `cc`: string(char array) – the array is larger than the C string in it and holds stale bytes after the NUL
+  | "cb" => do let r ← R; let h ← Rd.word; return some (.set r (TString.ofCStr ((unhex h).take 80 ++ [0])))
+  | "cc" => do let r ← R; let h ← Rd.word; return some (.set r (TString.ofCStr ((unhex h).take 80 ++ [0])))
   | "cl" => do let r ← R; let h ← Rd.word; return some (.set r (TString.ofBytes (unhex h)))
   | "cs" => do let r ← R; let h ← Rd.word; return some (.set r (TString.ofBytes (unhex h)))
   | "ca" => do let r ← R; let h ← Rd.word; let a ← rdAttr; return some (.set r (TString.withAttr a (TString.ofBytes (unhex h))))
